@@ -261,9 +261,13 @@ fn generic<F: ShortMessageFactory + Copy>(carrier: &'static str, structured: boo
 fn shorthands(cfg: &Cfg, rep: &mut Report) {
     use helgoboss_midi::test_util as tu;
     let step: usize = if cfg.as_c18 && !cfg.thorough { 5 } else { 1 };
-    let rawb = |m: RawShortMessage| -> (u8, u8, u8) {
-        let b = m.to_bytes();
-        (b.0, b.1.get(), b.2.get())
+    // the closures return the crate value itself so that the range observer sees it
+    let rawb = |m: RawShortMessage| -> RawShortMessage { m };
+    let nb = |r: Result<RawShortMessage, String>| -> Result<(u8, u8, u8), String> {
+        r.map(|m| {
+            let b = m.to_bytes();
+            (b.0, b.1.get(), b.2.get())
+        })
     };
     // helper: judge a shorthand call
     let judge = |name: &'static str, args: [i64; 3], valid: bool, r: Result<(u8, u8, u8), String>, exp: (u8, u8, u8), rep: &mut Report| {
@@ -307,7 +311,7 @@ fn shorthands(cfg: &Cfg, rep: &mut Report) {
                         for (c, a, b) in [(x, o1, o2), (o1, x, o2), (o1, o2, x)] {
                             let valid = c <= 15 && a <= 127 && b <= 127;
                             let r = api_probe(concat!("test_util::", stringify!($name)), || rawb(tu::$name(c, a, b)));
-                            judge(stringify!($name), [c as i64, a as i64, b as i64], valid, r, ($status | (c & 15), a, b), rep);
+                            judge(stringify!($name), [c as i64, a as i64, b as i64], valid, nb(r), ($status | (c & 15), a, b), rep);
                         }
                     }
                 }
@@ -326,7 +330,7 @@ fn shorthands(cfg: &Cfg, rep: &mut Report) {
                     for (c, a) in [(x, o), (o, x)] {
                         let valid = c <= 15 && a <= 127;
                         let r = api_probe(concat!("test_util::", stringify!($name)), || rawb(tu::$name(c, a)));
-                        judge(stringify!($name), [c as i64, a as i64, 0], valid, r, ($status | (c & 15), a, 0), rep);
+                        judge(stringify!($name), [c as i64, a as i64, 0], valid, nb(r), ($status | (c & 15), a, 0), rep);
                     }
                 }
             }
@@ -342,7 +346,7 @@ fn shorthands(cfg: &Cfg, rep: &mut Report) {
                 for (s, a, b) in [(x, o2, o2), (o1, x, o2), (o1, o2, x)] {
                     let valid = s >= 0x80 && a <= 127 && b <= 127;
                     let r = api_probe("test_util::short", || rawb(tu::short(s, a, b)));
-                    judge("short", [s as i64, a as i64, b as i64], valid, r, (s, a, b), rep);
+                    judge("short", [s as i64, a as i64, b as i64], valid, nb(r), (s, a, b), rep);
                 }
             }
         }
@@ -354,11 +358,11 @@ fn shorthands(cfg: &Cfg, rep: &mut Report) {
         for c in [0u8, 15, 16] {
             let valid = c <= 15 && v <= 16383;
             let r = api_probe("test_util::pitch_bend_change", || rawb(tu::pitch_bend_change(c, v)));
-            judge("pitch_bend_change", [c as i64, v as i64, 0], valid, r, (0xE0 | (c & 15), (v & 127) as u8, ((v >> 7) & 127) as u8), rep);
+            judge("pitch_bend_change", [c as i64, v as i64, 0], valid, nb(r), (0xE0 | (c & 15), (v & 127) as u8, ((v >> 7) & 127) as u8), rep);
         }
         let r = api_probe("test_util::song_position_pointer", || rawb(tu::song_position_pointer(v)));
-        judge("song_position_pointer", [v as i64, 0, 0], v <= 16383, r, (0xF2, (v & 127) as u8, ((v >> 7) & 127) as u8), rep);
-        let r = api_probe("test_util::u14", || tu::u14(v).get());
+        judge("song_position_pointer", [v as i64, 0, 0], v <= 16383, nb(r), (0xF2, (v & 127) as u8, ((v >> 7) & 127) as u8), rep);
+        let r = api_probe("test_util::u14", || tu::u14(v)).map(|x| x.get());
         rep.evaluations += 1;
         match (r, v <= 16383) {
             (Ok(g), true) if g == v => {}
@@ -373,10 +377,10 @@ fn shorthands(cfg: &Cfg, rep: &mut Report) {
     for x in 0u16..256 {
         let x = x as u8;
         let r = api_probe("test_util::song_select", || rawb(tu::song_select(x)));
-        judge("song_select", [x as i64, 0, 0], x <= 127, r, (0xF3, x, 0), rep);
+        judge("song_select", [x as i64, 0, 0], x <= 127, nb(r), (0xF3, x, 0), rep);
         macro_rules! small {
             ($name:ident, $max:expr) => {
-                let r = api_probe(concat!("test_util::", stringify!($name)), || tu::$name(x).get());
+                let r = api_probe(concat!("test_util::", stringify!($name)), || tu::$name(x)).map(|x| x.get());
                 rep.evaluations += 1;
                 match (r, x <= $max) {
                     (Ok(g), true) if g == x => {}
@@ -399,7 +403,7 @@ fn shorthands(cfg: &Cfg, rep: &mut Report) {
     macro_rules! nullary {
         ($($name:ident => $status:expr),*) => { $(
             let r = api_probe(concat!("test_util::", stringify!($name)), || rawb(tu::$name()));
-            judge(stringify!($name), [0, 0, 0], true, r, ($status, 0, 0), rep);
+            judge(stringify!($name), [0, 0, 0], true, nb(r), ($status, 0, 0), rep);
         )* };
     }
     nullary!(system_exclusive_start => 0xF0, tune_request => 0xF6, system_exclusive_end => 0xF7,
@@ -407,16 +411,14 @@ fn shorthands(cfg: &Cfg, rep: &mut Report) {
         active_sensing => 0xFE, system_reset => 0xFF);
     for (d1, f) in all_quarter_frames() {
         let r = api_probe("test_util::time_code_quarter_frame", || rawb(tu::time_code_quarter_frame(f)));
-        judge("time_code_quarter_frame", [d1 as i64, 0, 0], true, r, (0xF1, d1, 0), rep);
+        judge("time_code_quarter_frame", [d1 as i64, 0, 0], true, nb(r), (0xF1, d1, 0), rep);
     }
     // composite shorthands: control_change_14_bit, nrpn, nrpn_14_bit, rpn, rpn_14_bit
     for c in [0u8, 15, 16] {
         for n in [0u16, 31, 32, 127, 128, 16383, 16384] {
             for v in [0u16, 127, 128, 16383, 16384] {
-                let r = api_probe("test_util::control_change_14_bit", || {
-                    let m = tu::control_change_14_bit(c, n as u8, v);
-                    (m.channel().get(), m.msb_controller_number().get(), m.value().get())
-                });
+                let r = api_probe("test_util::control_change_14_bit", || tu::control_change_14_bit(c, n as u8, v))
+                    .map(|m| (m.channel().get(), m.msb_controller_number().get(), m.value().get()));
                 rep.evaluations += 1;
                 let valid = c <= 15 && n <= 31 && v <= 16383;
                 let n8 = n as u8;
@@ -434,10 +436,8 @@ fn shorthands(cfg: &Cfg, rep: &mut Report) {
                 macro_rules! pn {
                     ($name:ident, $vt:ty, $vmax:expr, $reg:expr, $b14:expr) => {
                         if v <= <$vt>::MAX as u16 {
-                            let r = api_probe(concat!("test_util::", stringify!($name)), || {
-                                let m = tu::$name(c, n, v as $vt);
-                                (m.channel().get(), m.number().get(), m.value().get(), m.is_registered(), m.is_14_bit(), m.data_type())
-                            });
+                            let r = api_probe(concat!("test_util::", stringify!($name)), || tu::$name(c, n, v as $vt))
+                                .map(|m| (m.channel().get(), m.number().get(), m.value().get(), m.is_registered(), m.is_14_bit(), m.data_type()));
                             rep.evaluations += 1;
                             let valid = c <= 15 && n <= 16383 && v <= $vmax;
                             match (r, valid) {
